@@ -9,6 +9,8 @@
 (* on it.  Property C16.                                                          *)
 EXTENDS Naturals, Integers, Sequences, FiniteSets, TLC, Json, IOUtils, MapDict
 
+CONSTANT StrictGrowth   \* TRUE: the capacity must follow map.c's growth rule exactly; FALSE: any power of two that never shrinks
+
 Trace == ndJsonDeserialize(IOEnv.TRACE)
 
 VARIABLES l,      \* next event
@@ -30,7 +32,8 @@ EvPut ==
   /\ IsEvent("put")
   /\ ev.old = DOld(dict, ev.k)
   /\ dict' = DPut(dict, ev.k, ev.a)
-  /\ cap' = CapAfterPut(cap, len) /\ ev.cap = cap'
+  /\ cap' = ev.cap
+  /\ IF StrictGrowth THEN ev.cap = CapAfterPut(cap, len) ELSE IsPow2(ev.cap) /\ ev.cap >= cap
   /\ len' = IF DHas(dict, ev.k) THEN len ELSE len + 1
   /\ ev.len = len'
   /\ ev.i \in 0..(cap' - 1)
